@@ -25,6 +25,9 @@ type Linter struct {
 
 	// guards Errors: custom linter plugins report concurrently
 	mu sync.Mutex
+
+	// modules whose inclusion is being resolved, to detect recursive inclusion
+	including map[string]struct{}
 }
 
 func New(c *config.LinterConfig, opts ...optionFunc) *Linter {
@@ -467,6 +470,22 @@ func (l *Linter) resolveFileInclusion(
 		l.Error(e.Match(INCLUDE_STATEMENT_MODULE_LOAD_FAILED))
 		return statements
 	}
+
+	// A module which includes itself, directly or through other modules, would be resolved forever
+	if _, ok := l.including[module.Name]; ok {
+		e := &LintError{
+			Severity: ERROR,
+			Token:    include.GetMeta().Token,
+			Message:  fmt.Sprintf("Module %s is included recursively", include.Module.Value),
+		}
+		l.Error(e.Match(INCLUDE_STATEMENT_MODULE_LOAD_FAILED))
+		return statements
+	}
+	if l.including == nil {
+		l.including = make(map[string]struct{})
+	}
+	l.including[module.Name] = struct{}{}
+	defer delete(l.including, module.Name)
 
 	if isRoot {
 		statements = l.loadVCL(module.Name, module.Data)
